@@ -121,3 +121,21 @@ func VerifStripJSONWrapper(wrapped string) (string, error) {
 func VerifEkeMaskRoundTrip(e *btcec.PublicKey, pw []byte) bool {
 	return ekeUnmask(ekeMask(e, pw), pw).IsEqual(e)
 }
+
+// VerifDecodeWebsocketEnvelope runs the same decoding steps that
+// websocketTransport.Recv applies to a text frame read from the receive socket:
+// strip the JSON result/error wrapper, then unmarshal the CipherBox.
+func VerifDecodeWebsocketEnvelope(msg []byte) ([]byte, error) {
+	unwrapped, err := stripJSONWrapper(string(msg))
+	if err != nil {
+		return nil, err
+	}
+
+	mailboxMsg := &hashmailrpc.CipherBox{}
+	err = defaultMarshaler.Unmarshal([]byte(unwrapped), mailboxMsg)
+	if err != nil {
+		return nil, err
+	}
+
+	return mailboxMsg.Msg, nil
+}
